@@ -86,7 +86,7 @@ Proof.
   - destruct (frames s); inversion H; subst; [constructor | apply ok_drops].
   - destruct (frames s) as [|fr rest]; inversion H; subst; [constructor|].
     apply Forall_app; split; [apply ok_drops|]. destruct f; [constructor | destruct (f_die fr); repeat constructor |
-      destruct (f_die fr); [|destruct ready]; repeat constructor].
+      destruct (f_die fr); destruct ready; repeat constructor].
   - revert H. unfold run_item. destruct c as [u i kd caps q]. destruct kd; repeat dest_match; intros H; inversion H; subst; repeat constructor.
   - unfold drop_item in H. destruct c as [u i kd caps q]. destruct kd; inversion H; subst; try apply ok_drops; repeat (first [apply Forall_cons | apply Forall_nil]); simpl; auto.
   - inversion H; subst. apply ok_drops.
@@ -100,6 +100,8 @@ Proof.
     apply Forall_app; split. destruct (a_notify x); repeat constructor.
     eapply state_drops_ok; eauto. intros h Eh. eapply held_calls; eauto.
   - revert H. unfold ret_invoke. destruct r as [rid kd]. destruct kd; repeat dest_match; intros H; inversion H; subst; repeat constructor.
+  - inversion H; constructor.
+  - inversion H; constructor.
   - inversion H; constructor.
   - inversion H; constructor.
   - unfold terminate in H. destruct (aget (actors s) a) as [x|] eqn:AX; [|inversion H; constructor].
